@@ -138,6 +138,18 @@ theorem C13_sound_tree (s : In) (a : Iface) (h : parseInterface s = .ok a) : ifa
 theorem C13_sound_text (s : In) (a : Iface) (h : parseInterface s = .ok a) (hne : ifaceNE a = true) :
     IfaceS a (trim s) := parseInterface_textSound s a h hne
 
+/-- **The two grammars agree on every laid-out text**: a text of the completeness grammar `IfaceCoreL` is
+    also a text of the soundness grammar `IfaceS`, for the same description (it parses to it by
+    `C13_layout`, hence is accounted for byte by byte by `C13_sound_text`). -/
+theorem C13_grammars_consistent {a : Iface} {core : In} (h : IfaceCoreL a core) (hne : ifaceNE a = true) : IfaceS a core := by
+  have hp := C13_layout h [] [] rfl rfl
+  have ht : trim core = core := by
+    obtain ⟨c, mid, d, e, hc, hd⟩ := h.shape
+    have := trim_gaps [] [] c d mid rfl rfl hc hd
+    rw [e]; simpa using this
+  have := C13_sound_text _ a hp hne
+  simpa [ht] using this
+
 /-- e.g. the member list of a `type` cannot mix variants and typed fields in an accepted text, and no
     member of it is dropped: a `type` member of an accepted text is one of the three homogeneous forms. -/
 theorem C13_type_members_homogeneous (i : In) (t : CT) (r : In) (h : typeDef i = .ok t r) (hne : ctNE t = true) :
